@@ -168,5 +168,133 @@ def idcStar (ordf : List World → List World) (dordf kordf : List Var → List 
     (outcomes conditions : Event) : Except Err Expr :=
   idcStarFuel ordf dordf kordf G (idcStarFuelBound G outcomes conditions) outcomes conditions
 
+/-! ### instrumentation for the termination search (NOT a model of a Python function): the control flow of `idcStarFuel` up to the
+decision of line 4, recording `(|outcomes|, |conditions|)` of every level; the Boolean says whether the recursion ended before
+the fuel did -/
+
+def idcStarTrace (ordf : List World → List World) (dordf kordf : List Var → List Var) (G : MG Name) :
+    Nat → Event → Event → List (List Nat) × Bool
+  | 0, _, _ => ([], false)
+  | fuel + 1, outcomes, conditions =>
+    let onames := outcomes.keys.map (·.name)
+    let here := [outcomes.length, conditions.length]
+    match line1 (idStar ordf dordf G conditions) with
+    | .error _ => ([here], true)
+    | .ok _ =>
+      match makeCounterfactualGraph ordf G (Event.ofList (outcomes ++ conditions)) with
+      | .ok (cf, some nev) =>
+        let (no, nc) := newOutcomesAndConditions kordf nev outcomes conditions
+        let shared := nc.keys.filter (fun k => no.has k)
+        let here := here ++ [no.length, nc.length, shared.length, (remainingAndMissing nev outcomes).2.length,
+          (remainingAndMissing nev conditions).2.length,
+          -- |names(O)|, #conditions whose name is no outcome name, all keys not self-intervened (1/0),
+          -- names(no) ⊆ names(O) (1/0), #conditions of nc whose name is not a name of no
+          (dedup' onames).length, (conditions.keys.filter (fun k => !elem' k.name onames)).length,
+          (if (outcomes ++ conditions).all (fun p => isNotSelfIntervened p.1) then 1 else 0),
+          (if no.keys.all (fun k => elem' k.name onames) then 1 else 0),
+          (nc.keys.filter (fun k => !elem' k.name (no.keys.map (·.name)))).length]
+        match firstExchangeable cf no.keys nc.keys with
+        | .ok (some c) =>
+          match nc.get? c with
+          | none => ([here], true)
+          | some val =>
+            match exchangeOutcomes cf no c val with
+            | .ok no' =>
+              -- shared keys that the exchange re-subscripted (they stay as conditions under their old key)
+              let split := shared.filter (fun k => !no'.has k)
+              let r := idcStarTrace ordf dordf kordf G fuel no' (nc.filter (fun p => p.1 ≠ c))
+              -- last: the exchanged condition's name is the name of some (re-associated) outcome (1/0)
+              ((here ++ [split.length, if elem' c.name (no.keys.map (·.name)) then 1 else 0]) :: r.1, r.2)
+            | .error _ => ([here], true)
+        | _ => ([here], true)
+      | _ => ([here], true)
+
+/-! ### executable membership tests of the two fragments on which soundness is PROVED (Props/C08.lean:
+`idcstar_sound_fragment`, `idcstar_sound_fragment_exchange`); the driver evaluates them so that the harness can compare its own
+classification of the real run with them -/
+
+/-- the unstarred value symbol of `x` -/
+abbrev unstar (x : Name) : Iv := ⟨x, false⟩
+
+/-- the single factual condition `X = x` -/
+abbrev condOf (x : Name) : Event := [(Var.plain x, unstar x)]
+
+/-- the outcomes after the exchange: every `Y = y` becomes `Y_x = y` -/
+def exOut (O : Event) (x : Name) : Event := O.map fun p => (atWorld p.1.name [unstar x], p.2)
+
+/-- static part of the fragment, as an executable test: outcomes and conditions are dicts of FACTUAL variables of `G` with
+unstarred values, no variable name on both sides, at least one condition -/
+def fragCStaticB (G : MG Name) (O C : Event) : Bool :=
+  decide O.keys.Nodup && decide C.keys.Nodup &&
+  (O ++ C).all (fun p => decide (p.1 = Var.plain p.1.name) && decide (p.2 = ⟨p.1.name, false⟩) && decide (p.1.name ∈ G.nodes)) &&
+  O.keys.all (fun o => C.keys.all (fun c => decide (o.name ≠ c.name))) && !C.isEmpty
+
+/-- rule 2 applies to no condition (line 4 does not recurse) -/
+def noExchangeB (ordf : List World → List World) (G : MG Name) (O C : Event) : Bool :=
+  match makeCounterfactualGraph ordf G (O ++ C) with
+  | .ok (cf, some _) => (match firstExchangeable cf O.keys C.keys with | .ok none => true | _ => false)
+  | _ => true
+
+/-- ID*'s estimand for the joint event mentions exactly the event's variables: nothing was marginalised (no `Sum`, whose
+bound variable `Expression.conditional` would sum over a second time — what remains of F11) -/
+def estNamesB (ordf : List World → List World) (dordf : List Var → List Var) (G : MG Name) (O C : Event) : Bool :=
+  match idStar ordf dordf G (O ++ C) with
+  | .ok est => (exprNames est).all (fun n => decide (n ∈ (O ++ C).keys.map (·.name))) &&
+      ((O ++ C).keys.map (·.name)).all (fun n => decide (n ∈ exprNames est))
+  | .error _ => true
+
+/-- **The fragment of IDC\***: observational conditional queries `P(y | x)` (conjunctions of factual variables of `G`, unstarred
+values, outcome names ≠ condition names) on which rule 2 applies to no condition and ID* answers the joint event without
+marginalising a variable.  Decidable from the input (`inFragmentCB` runs the model's own test functions). -/
+def inFragmentCB (ordf : List World → List World) (dordf : List Var → List Var) (G : MG Name) (O C : Event) : Bool :=
+  fragCStaticB G O C && noExchangeB ordf G O C && estNamesB ordf dordf G O C
+
+/-- static part of the exchange fragment: the static part of `InFragmentC`, at least one outcome, exactly ONE condition -/
+def fragXStaticB (G : MG Name) (O C : Event) : Bool :=
+  fragCStaticB G O C && !O.isEmpty && decide (C.length = 1)
+
+/-- EVERY outcome descends from the condition in the counterfactual graph: the exchange turns every outcome `Y` into `Y_x` -/
+def exchangeAllB (cf : MG Var) (O : Event) (c : Var) : Bool :=
+  O.all fun p => match cf.ancestorsInclusive [p.1] with | .ok anc => elem' c anc | _ => false
+
+/-- NO outcome descends from the condition: the exchange leaves the outcomes as they are -/
+def exchangeNoneB (cf : MG Var) (O : Event) (c : Var) : Bool :=
+  O.all fun p => match cf.ancestorsInclusive [p.1] with | .ok anc => !elem' c anc | _ => false
+
+/-- dynamic part, run with the model's own functions: rule 2 applies to the condition `X = x` (line 4 recurses) and either every
+outcome descends from `X` in the counterfactual graph or none does (so that the recursive call is about ONE world) -/
+def exchangeB (ordf : List World → List World) (G : MG Name) (O C : Event) : Bool :=
+  match C with
+  | [(c, val)] =>
+    (match makeCounterfactualGraph ordf G (O ++ C) with
+     | .ok (cf, some _) =>
+       (match firstExchangeable cf O.keys C.keys with
+        | .ok (some _) => exchangeAllB cf O c || exchangeNoneB cf O c
+        | _ => false)
+     | _ => true)
+  | _ => false
+
+/-- **The exchange fragment of IDC\***: observational queries `P(y | x)` with ONE condition — factual variables of `G`, unstarred
+values, the outcome names different from `X` — on which rule 2 of the do-calculus applies to `X` according to
+`cf_rule_2_of_do_calculus_applies` and either every outcome descends from `X` (IDC* then answers with ID*'s estimand for `P(y_x)`)
+or none does (IDC* answers with ID*'s estimand for `P(y)`).
+Decidable from the input (`inFragmentXB` runs the model's own functions).  Disjoint from `InFragmentC` (there rule 2 applies to
+no condition). -/
+def inFragmentXB (ordf : List World → List World) (G : MG Name) (O C : Event) : Bool :=
+  fragXStaticB G O C && exchangeB ordf G O C
+
+
+/-- executable form of the hypotheses of the general termination theorem (Props/C08.lean `idcstar_terminates_shared_names`): dicts
+of well-formed keys over the graph, values named after their keys, no key self-intervened -/
+def idcInvB (G : MG Name) (O C : Event) : Bool :=
+  decide O.keys.Nodup && decide C.keys.Nodup &&
+  (O ++ C).all (fun p => decide (p.2.name = p.1.name) && decide (p.1.star = none) && !p.1.isIv &&
+    decide (p.1.name ∈ G.nodes) && p.1.ivs.all (fun i => p.1.ivs.all (fun j => decide (i.name = j.name → i = j))) &&
+    isNotSelfIntervened p.1)
+
+/-- no variable name occurs both among the outcomes and among the conditions (hypothesis of `idcstar_own_recursion_terminates`) -/
+def disjointNamesB (O C : Event) : Bool :=
+  decide C.keys.Nodup && O.keys.all (fun o => C.keys.all (fun c => decide (o.name ≠ c.name)))
+
 end Cf
 end Y0
